@@ -23,7 +23,7 @@ fn spec(t: Tier) -> Spec {
     Spec {
         id: "C12",
         level: "exploration",
-        rule: format!("pattern = sequence of atoms from {:?} (literals incl. regex metacharacters, * ?, backslash escapes, well-formed bracket expressions with negation/range/class/leading ]/escaped ]/inner [, '/' inside a bracket, stray [ ] !); subject = every non-empty string of <= k characters over {:?}. -lname: one directory of symbolic links whose targets are all the subjects; -name: files named by the '/'-free subjects; -path: the same files, pattern prefixed by the literal directory; -ilname/-iname/-ipath with case folding. Slices: {}; plus every pattern of <= 2 atoms given to -iname and to -name in the same expression; plus -name/-iname on starting points spelled N, ./N, N/, N//, N/., N/.., ., .., N/./., N/../N, N/./, N/.//, N/../, ./, .//, ../ (subject = last path component as given). Tree slice: a directory tree whose paths continue one another's text (T/ab, T/ab/x, T/abc/g, T/abd, T/a/b/c, 'T/a b/y', T/AB/x) walked as one and as several starting points in different orders: -path/-wholename/-ipath with every path, every proper prefix + *, * + every suffix and every path with one character replaced by ?, -name/-iname likewise on the names, all evaluated on every entry in turn (oracle fnmatch). Environment slice (binary): nine patterns x -name/-iname/-path/-lname on dot-files with POSIXLY_CORRECT set (also empty), LC_ALL=en_US.UTF-8, LANG=C — the selection is fnmatch's without FNM_PERIOD whatever the environment; -lname on /proc/self/cwd and /proc/self/exe (lstat size 0). Long slice: runs of 1..14 `?` (alone, after/before `*`, between literals), 1..14 brackets, two/three stars separated by brackets, `?` or literals, literal patterns of 15..240 bytes, against subjects of 1..14, 20, 40, 100, 140, 160, 200, 240 bytes, for -name, -iname, -path, -lname, -ilname (oracle glibc fnmatch, plus the reference matcher up to 40 bytes). For each (pattern, subject) the real find's selection must equal fnmatch(): glibc fnmatch(3) (C locale, flags 0 / FNM_CASEFOLD) and the reference matcher written from the statement must agree, otherwise the pair is counted as oracle-undecided and not judged. evaluation = (primary, pattern, subject); non-trivial = pattern containing a special atom (not only literals)", ATOMS, SUBJ.iter().map(|c| (*c as char).to_string()).collect::<Vec<_>>(), t.pick("-lname atoms<=3 x k<=3 and 12-atom sub-alphabet<=3 x k<=3; other primaries atoms<=2 x k<=3", "-lname atoms<=4 x k<=3, atoms<=3 x k<=4, sub-alphabet<=5 x k<=3; other five primaries atoms<=3 x k<=3")),
+        rule: format!("pattern = sequence of atoms from {:?} (literals incl. regex metacharacters, * ?, backslash escapes, well-formed bracket expressions with negation/range/class/leading ]/escaped ]/inner [, '/' inside a bracket, stray [ ] !); subject = every non-empty string of <= k characters over {:?}. -lname: one directory of symbolic links whose targets are all the subjects; -name: files named by the '/'-free subjects; -path: the same files, pattern prefixed by the literal directory; -ilname/-iname/-ipath with case folding. Slices: {}; plus every pattern of <= 2 atoms given to -iname and to -name in the same expression; plus -name/-iname on starting points spelled N, ./N, N/, N//, N/., N/.., ., .., N/./., N/../N, N/./, N/.//, N/../, ./, .//, ../ (subject = last path component as given). Tree slice: a directory tree whose paths continue one another's text (T/ab, T/ab/x, T/abc/g, T/abd, T/a/b/c, 'T/a b/y', T/AB/x) walked as one and as several starting points in different orders: -path/-wholename/-ipath/-iwholename with every path, every proper prefix + *, * + every suffix and every path with one character replaced by ?, -name/-iname likewise on the names, all evaluated on every entry in turn (oracle fnmatch). Environment slice (binary): nine patterns x -name/-iname/-path/-lname on dot-files with POSIXLY_CORRECT set (also empty), LC_ALL=en_US.UTF-8, LANG=C — the selection is fnmatch's without FNM_PERIOD whatever the environment; -lname on /proc/self/cwd and /proc/self/exe (lstat size 0). Long slice: runs of 1..14 `?` (alone, after/before `*`, between literals), 1..14 brackets, two/three stars separated by brackets, `?` or literals, literal patterns of 15..240 bytes, against subjects of 1..14, 20, 40, 100, 140, 160, 200, 240 bytes, for -name, -iname, -path, -lname, -ilname (oracle glibc fnmatch, plus the reference matcher up to 40 bytes). For each (pattern, subject) the real find's selection must equal fnmatch(): glibc fnmatch(3) (C locale, flags 0 / FNM_CASEFOLD) and the reference matcher written from the statement must agree, otherwise the pair is counted as oracle-undecided and not judged. evaluation = (primary, pattern, subject); non-trivial = pattern containing a special atom (not only literals)", ATOMS, SUBJ.iter().map(|c| (*c as char).to_string()).collect::<Vec<_>>(), t.pick("-lname atoms<=3 x k<=3 and 12-atom sub-alphabet<=3 x k<=3; other primaries atoms<=2 x k<=3", "-lname atoms<=4 x k<=3, atoms<=3 x k<=4, sub-alphabet<=5 x k<=3; other five primaries atoms<=3 x k<=3")),
         bound: json!({"atoms": ATOMS.len(), "sub_atoms": SUB_ATOMS.len(), "subject_alphabet": SUBJ.len()}),
         assumptions: vec![
             "ASCII only (glibc's C locale is bytewise)".into(),
@@ -744,7 +744,7 @@ fn tree_history_slice(ctx: &mut Ctx) {
     }
     let cs = |s: &str| CString::new(s).unwrap();
     for roots in &root_lists {
-        for (prim, fold, on_path) in [("-path", false, true), ("-wholename", false, true), ("-ipath", true, true), ("-name", false, false), ("-iname", true, false)] {
+        for (prim, fold, on_path) in [("-path", false, true), ("-wholename", false, true), ("-ipath", true, true), ("-iwholename", true, true), ("-name", false, false), ("-iname", true, false)] {
             let pats: Vec<&String> = if on_path { path_pats.iter().collect() } else { name_pats.iter().collect() };
             for chunk in pats.chunks(60) {
                 let tests: Vec<lb::Test> = chunk.iter().map(|p| vec![prim.to_string(), p.to_string()]).collect();
